@@ -161,6 +161,14 @@ def gen_cases(tier, seed):
                 yield {"group": gid, "name": bc["name"], "spec": bc["spec"], "pre": bc["pre"], "driver": driver, "workers": w,
                        "args": ["--driver", driver, "-w", str(w), "--block-size", bc["bs"]] + bc.get("opts", []) + bc.get("tail", ["-r", "src", "dst"]), "plan": sch,
                        "expect_fail": bc["expect_fail"], "fs": "ext4", "rules": bc.get("rules", []), "nofile": bc.get("nofile")}
+            # ... and a few runs outside the supervisor: tracing serialises the threads at every system call, real parallelism finds
+            # other overlaps (no event monitors there, only exit status and final state)
+            if not bc.get("rules") and not bc.get("nofile"):
+                for k in range((10 if tier == "quick" else 60) if driver == "parfile" else (6 if tier == "quick" else 40)):
+                    w = [8, 4, 16, 2, 32][k % 5]
+                    yield {"group": gid, "name": bc["name"], "spec": bc["spec"], "pre": bc["pre"], "driver": driver, "workers": w, "plain": True,
+                           "args": ["--driver", driver, "-w", str(w), "--block-size", bc["bs"]] + bc.get("opts", []) + bc.get("tail", ["-r", "src", "dst"]), "plan": {"sched": "unsupervised"},
+                           "expect_fail": bc["expect_fail"], "fs": "ext4", "rules": [], "nofile": None}
         gid += 1
 
 
@@ -184,6 +192,23 @@ def run_case(case):
         root = sb.root
         tree.materialize(root, tree.fix_mtimes(case["spec"]))
         tree.materialize(root, tree.fix_mtimes(case["pre"], 1_500_000_000_000_000_000))
+        if case.get("plain"):
+            old_umask = os.umask(0o027)
+            try:
+                run = core.run_plain(core.xcp_argv(case["args"]), root, timeout=300)
+            finally:
+                os.umask(old_umask)
+            if run.verdict != "exited":
+                res["inconc"].append("run-" + run.verdict)
+                return res
+            post = tree.snapshot(root)
+            res["counters"]["runs"] = 1
+            res["counters"]["sched:unsupervised"] = 1
+            res["data"] = {"group": case["group"], "exit0": run.exit0, "snap": norm_snapshot(post) if run.exit0 else None, "sig": "unsupervised",
+                           "driver": case["driver"], "workers": case["workers"], "sched": case["plan"], "name": case["name"],
+                           "expect_fail": case["expect_fail"], "stderr": run.stderr[-300:]}
+            res["evals"].append({"key": None})
+            return res
         plan = dict(case["plan"])
         if case.get("nofile"):
             plan["nofile"] = case["nofile"]
